@@ -34,10 +34,13 @@ def probes(ty, rng):
         return [("int%d" % j, v) for j, v in enumerate(vals)]
     if k == "bytescap":
         c = ty[1]
-        return [("len%d" % n, rng.bytes(n)) for n in sorted({max(0, c - 1), c, c + 1, c + 300})]
+        return ([("len%d" % n, rng.bytes(n)) for n in sorted({max(0, c - 1), c, c + 1, c + 300})]
+                + ([("seq%d" % n, [rng.below(256) for _ in range(n)]) for n in (c, c + 1)] if c <= 300 else []))
     if k in ("bytearrref", "bytearr"):
         c = ty[1]
-        return [("len%d" % n, rng.bytes(n)) for n in sorted({0, c - 1, c, c + 1, c + 300})]
+        return ([("len%d" % n, rng.bytes(n)) for n in sorted({0, c - 1, c, c + 1, c + 300})]
+                # the same lengths as a CBOR ARRAY of small integers: never a byte string of the required length
+                + [("seq%d" % n, [rng.below(256) for _ in range(n)]) for n in (c - 1, c, c + 1, c + 8)])
     if k == "strcap":
         c = ty[1]
         return [("len%d" % n, cbor.T(gen.utf8_text(rng, n))) for n in sorted({max(0, c - 1), c, c + 1, c + 300})]
